@@ -61,20 +61,12 @@ def mapField (m : Rdfc10.SMap Str) : String :=
 def bnodeLabelsOf (q : Quad) : List Str :=
   (Rdfc10.components q).filterMap (fun c => match c.1 with | .bnode b => some b | _ => none)
 
-/-- static upper bound of the length of any related-blank-node list of `b`: every occurrence of
-another blank node in a quad mentioning `b`, once per occurrence of `b` in that quad -/
-def relBound (quads : List Quad) (b : Str) : Nat :=
-  quads.foldl (fun acc q =>
-    let ls := bnodeLabelsOf q
-    let occ := ls.count b
-    acc + occ * (ls.length - occ)) 0
-
-/-- the dataset is within the documented limits *whatever the traversal*: no related list can be
-longer than the permutation limit, and the depth guard does not trip even at depth = number of
-blank nodes (the recursion depth is below that: every level issues a new identifier) -/
+/-- the dataset is within the documented limits *whatever the traversal* (`Rdfc10.withinLimits` on the
+`b2q` map of step 2; `false` when step 2 rejects the dataset) -/
 def withinLimits (tooDeep : Nat → Nat → Bool) (permLimit : Nat) (quads : List Quad) : Bool :=
-  let ls := (quads.flatMap bnodeLabelsOf).eraseDups
-  ls.all (fun b => relBound quads b ≤ permLimit) && !tooDeep ls.length ls.length
+  match Rdfc10.step2 quads with
+  | .ok b2q => Rdfc10.withinLimits tooDeep permLimit b2q
+  | .error _ => false
 
 def hasSelfRef (quads : List Quad) : Bool :=
   quads.any (fun q => let ls := bnodeLabelsOf q; ls.eraseDups.length != ls.length)
